@@ -1003,9 +1003,11 @@ dt_strfdt(char *restrict buf, size_t bsz, const char *fmt, struct dt_dt_s that)
 			/* must be literal then */
 			*bp++ = *fp_sav;
 		} else if (LIKELY(!spec.rom)) {
+			const char *const np = bp;
+
 			bp += __strfdt_card(bp, eo - bp, spec, &d, that);
 			if (spec.ord) {
-				bp += __ordtostr(bp, eo - bp);
+				bp += __ordtostr(bp, eo - bp, bp - np);
 			} else if (spec.bizda && bp < eo) {
 				/* don't print the b after an ordinal */
 				if (spec.ab == BIZDA_AFTER) {
